@@ -85,7 +85,8 @@ impl PreSharedKey {
 }
 
 fn parse_hex_key(s: &str) -> Result<[u8; KEY_SIZE], KeyParseError> {
-    if s.len() == KEY_SIZE * 2 {
+    // byte length and character count only agree for ASCII; the slicing below relies on it
+    if s.len() == KEY_SIZE * 2 && s.is_ascii() {
         let mut r = [0u8; KEY_SIZE];
         for i in 0..KEY_SIZE {
             r[i] = u8::from_str_radix(&s[i * 2..i * 2 + 2], 16)
